@@ -5,22 +5,27 @@ import json, os, subprocess, sys, time
 from collections import Counter
 args = sys.argv[1:]
 j, t, slot = 8, 600, "slot0"
+extra = []
+mem = 16
 fl = []
 i = 0
 while i < len(args):
     if args[i] == "-j": j = int(args[i+1]); i += 2
     elif args[i] == "-t": t = int(args[i+1]); i += 2
     elif args[i] == "-s": slot = args[i+1]; i += 2
+    elif args[i] == "-m": mem = int(args[i+1]); i += 2
+    elif args[i] == "-x": extra = args[i+1].split(); i += 2
     else: fl.append(args[i]); i += 1
 exp = "/verif/.target/%s/kr_export_%d.json" % (slot, os.getpid())
 log = "/verif/.target/kr_%s.log" % slot
 cmd = ["cargo", "kani", "-Z", "stubbing", "-Z", "unstable-options", "--target-dir", "/verif/.target/" + slot,
        "--output-format", "terse", "--harness-timeout", "%ds" % t, "--export-json", exp, "-j", str(j)]
 for f in fl: cmd += ["--harness", f]
+if extra: cmd += ["--cbmc-args"] + extra
 e = dict(os.environ); e["CARGO_NET_OFFLINE"] = "true"
 t0 = time.time()
 with open(log, "w") as f:
-    subprocess.run(["bash", "-c", "ulimit -v 16000000; exec \"$@\"", "--"] + cmd, cwd="/verif/kani", env=e, stdout=f, stderr=subprocess.STDOUT)
+    subprocess.run(["bash", "-c", "ulimit -v %d; exec \"$@\"" % (mem * 1000000), "--"] + cmd, cwd="/verif/kani", env=e, stdout=f, stderr=subprocess.STDOUT)
 if not os.path.exists(exp):
     print("no export; tail of log:"); print("".join(open(log, errors="replace").readlines()[-30:])); sys.exit(2)
 d = json.load(open(exp)); os.unlink(exp)
